@@ -65,10 +65,10 @@ def plan(tier):
                     min_evals={"angdist": 10000, "cone": 8000, "inplane": 10000, "cone_inplane": 7500, "compare": 4400,
                                "e2n": 2000, "n2e": 800, "viz": 6000, "symmetry": 700, "zero_equal": 7500, "invariance": 1400,
                                "triangle": 700, "dispatch": 2800, "n2e_roundtrip": 800})
-    return dict(n_cases=24000, shards=16, classes=CLASSES, timeout_s=3000,
-                min_evals={"angdist": 150000, "cone": 75000, "inplane": 100000, "cone_inplane": 60000, "compare": 50000,
-                           "e2n": 38000, "n2e": 13000, "viz": 120000, "symmetry": 12000, "zero_equal": 48000,
-                           "invariance": 24000, "triangle": 12000, "dispatch": 48000, "n2e_roundtrip": 13000})
+    return dict(n_cases=16000, shards=16, classes=CLASSES, timeout_s=3000,
+                min_evals={"angdist": 125000, "cone": 100000, "inplane": 124000, "cone_inplane": 93000, "compare": 54000,
+                           "e2n": 24000, "n2e": 8400, "viz": 80000, "symmetry": 7800, "zero_equal": 92000,
+                           "invariance": 15500, "triangle": 7800, "dispatch": 31000, "n2e_roundtrip": 8400})
 
 
 # ---- reading the inputs of an observed call ----------------------------------------------------------
